@@ -262,7 +262,18 @@ class SInt:
             return z3.IntVal(int(o))
         return None
 
+    # numpy defers binary operations with an ndarray to the reflected dunder below (element-wise)
+    __array_ufunc__ = None
+
+    def _elementwise(self, arr, name):
+        out = np.empty(arr.shape, dtype=object)
+        for idx in np.ndindex(*arr.shape):
+            out[idx] = getattr(self, name)(arr[idx])
+        return out
+
     def __eq__(self, o):
+        if isinstance(o, np.ndarray):
+            return self._elementwise(o, "__eq__")
         ot = self._o(o)
         if ot is None:
             return False
@@ -271,6 +282,8 @@ class SInt:
         return SBool(self.t == ot)
 
     def __ne__(self, o):
+        if isinstance(o, np.ndarray):
+            return self._elementwise(o, "__ne__")
         ot = self._o(o)
         if ot is None:
             return True
